@@ -12,12 +12,20 @@ close(s) (`C14_*_shape`) — and every parent descriptor that mutating call name
 call relative to a descriptor is its fd-relative semantics; a directory that was inside the tree when it was verified can
 only have been moved by the attacker afterwards.)
 
-Caveat (see the last section): `World.answer` answers every mutating call `ENOSYS`, so under `runSeq` only `create_file`
-(whose call is an `openat`) can succeed; for `remove`, `create` and `rename` the success hypothesis is unsatisfiable in
-this kernel model (`remove_never_ok`, `create_never_ok`, `rename_never_ok`).
+`World.mutAns` says how the kernel of a moment answers a mutating call (arbitrary; its effect is whatever the later
+worlds look like), so all four operations can succeed under `runSeq` (examples at the end).
+
+The two reading operations that do more than a lookup: `readlink_under_attack` (the bytes are the kernel's answer to
+`readlinkat` on a descriptor whose object was below the root at an earlier moment of the call) and
+`openSubpath_under_attack` (the emulated one-shot open: lookup, `fstat`, re-open through `thread-self/fd/<n>`).  For the
+latter the re-open is not inverted call by call but bounded from above: `Post Kern p Q` says that `Q` holds of the result
+of `p` whenever every call is answered by *some* world (a different one each time), and `post_reopen` shows, rule by
+rule, that `Procfs.reopen` of an even non-negative descriptor `f` can only return `f` — in particular its readlink probe
+never reports "not a symlink" (`EINVAL`/`ENOENT`), so the no-follow fallback, which would return the magic-link
+`f + 1` itself, is never taken.
 -/
 
-open K World KRun Attack
+open K World KRun Attack Runs
 
 namespace AttackOps
 
@@ -110,53 +118,578 @@ theorem rename_under_attack (ws : Nat → World) (root : Fd) (rc : List Bytes) (
     ⟨i, p, hi0, by omega, hp⟩,
     resolve_sub_under_attack ws root rc m ha dparent rflags false i0 H hans hres2' hp2⟩
 
-/-! ## Non-vacuity, and what is vacuous
+/-! ## `readlink` -/
 
-`runSeq` answers every call with `World.answer` of the world of its moment, and `World.answer` does not implement the
-mutating calls: it answers each of them `ENOSYS` (`answer_mutating`).  An operation whose success requires an
-acknowledged mutating call therefore never succeeds under `runSeq` (`remove_never_ok`, `create_never_ok`,
-`rename_never_ok`): in *this* model of the kernel the hypothesis `h` of `remove_under_attack`, `create_under_attack`
-and `rename_under_attack` is unsatisfiable and the three theorems hold vacuously.  Their content is in the proofs, which
-nowhere use that fact: they go through `resolve_sub_under_attack`, for histories `H` with `AnsSeq ws i0 H` up to the
-mutating call only (`pre`), and would go through unchanged for a `runSeq` over worlds that do answer mutating calls.
-
-`create_file`'s call is an `openat`, which `World.answer` does answer (as a lookup): `createFile_under_attack` has
-instances (`ex_createFile`), and so has `resolve_sub_under_attack` (`ex_run` of `Attack.lean`). -/
-
-theorem answer_mutating (w : World) (c : Call) (hc : isMutating c = true) : w.answer c = .err ENOSYS := by
-  cases c <;> first | rfl | cases hc
-
-/-- no mutating call is acknowledged in a history answered by `World.answer` -/
-theorem no_ack_mutating {ws : Nat → World} {i0 : Nat} {H pre t : Hist} {c : Call} (hans : AnsSeq ws i0 H)
-    (hc : isMutating c = true) (hH : H = pre ++ (c, Resp.unit) :: t) : False := by
-  have hp : pre ++ [(c, Resp.unit)] <+: H := ⟨t, by rw [hH]; simp⟩
-  have h1 := (ans_at hans rfl hp).1
-  rw [answer_mutating _ _ hc] at h1
-  cases h1
-
-theorem remove_never_ok (ws : Nat → World) (env : Env) (root : Root) (path : Bytes) (isDir : Bool) (i0 : Nat) :
-    (runSeq ws i0 (Root.removeInode env root path isDir)).1 ≠ .ok () := by
-  intro h
-  obtain ⟨H, hruns, _, hans⟩ := runSeq_runs ws (Root.removeInode env root path isDir) i0 []
+/-- **readlink under attack**: the bytes returned are the kernel's answer, at some moment of the call, to `readlinkat` on
+a descriptor of an object that was below the root at some (earlier) moment of the call -/
+theorem readlink_under_attack (ws : Nat → World) (root : Fd) (rc : List Bytes) (m : Nat) (ha : Attacker ws root rc m)
+    (path : Bytes) (rflags : Nat) (i0 : Nat) (body : Bytes)
+    (h : (runSeq ws i0 (Root.readlink (aenv m) (eroot root rflags) path)).1 = .ok body) :
+    ∃ link i p j, i0 ≤ i ∧ i < j ∧ j < (runSeq ws i0 (Root.readlink (aenv m) (eroot root rflags) path)).2 ∧
+      (ws i).dpath link = some p ∧ (ws j).answer (.readlinkat link [] READLINK_BUF) = .bytes body := by
+  obtain ⟨H, hruns, hlen, hans⟩ := runSeq_runs ws (Root.readlink (aenv m) (eroot root rflags) path) i0 []
   rw [h] at hruns
-  obtain ⟨_, _, _, _, _, _, _, hH⟩ := C14_remove_shape _ _ _ _ hruns
-  exact no_ack_mutating hans rfl hH
+  rw [hlen]
+  simp only [List.nil_append] at hruns
+  unfold Root.readlink at hruns
+  simp only [M.bind_def] at hruns
+  obtain ⟨hm, link, hres, hr2⟩ := mbind_ok hruns
+  obtain ⟨hm2, x, htry, hr3⟩ := mbind_ok hr2
+  obtain ⟨y, hy, hcase⟩ := try_inv htry
+  obtain ⟨hm3, _, hcl, hr4⟩ := mbind_ok hr3
+  obtain ⟨_, hx⟩ := ofExcept_inv hr4
+  subst hx
+  have hp2 : hm2 <+: H := (Runs.isPrefix hr3)
+  rcases hcase with ⟨a, rfl, hxa⟩ | ⟨e, rfl, hfe⟩
+  · cases hxa
+    have hrl := readlinkat_ok_inv hy
+    have hres' : Runs (Opath.resolve (aenv m) root path rflags true) [] hm (.ok link) := hres
+    obtain ⟨i, p, hi0, hi1, hp⟩ :=
+      resolve_sub_under_attack ws root rc m ha path rflags true i0 H hans hres' ((Runs.isPrefix htry).trans hp2)
+    obtain ⟨hresp, hlt⟩ := ans_at hans hrl hp2
+    exact ⟨link, i, p, i0 + hm.length, hi0, hi1, by omega, hp, hresp.symm⟩
+  · rcases hfe with ⟨_, hxe⟩ | ⟨_, hxe⟩ <;> cases hxe
 
-theorem create_never_ok (ws : Nat → World) (env : Env) (root : Root) (path : Bytes) (ty : InodeType)
-    (hty : ∀ t, ty ≠ .hardlink t) (i0 : Nat) : (runSeq ws i0 (Root.create env root path ty)).1 ≠ .ok () := by
-  intro h
-  obtain ⟨H, hruns, _, hans⟩ := runSeq_runs ws (Root.create env root path ty) i0 []
-  rw [h] at hruns
-  obtain ⟨_, _, _, _, _, _, _, _, hc, hH⟩ := C14_create_shape _ _ _ _ hty hruns
-  exact no_ack_mutating hans hc hH
+/-! ## What a program can return when every call is answered by some world
 
-theorem rename_never_ok (ws : Nat → World) (env : Env) (root : Root) (src dst : Bytes) (rnflags : Nat) (i0 : Nat) :
-    (runSeq ws i0 (Root.rename env root src dst rnflags)).1 ≠ .ok () := by
-  intro h
-  obtain ⟨H, hruns, _, hans⟩ := runSeq_runs ws (Root.rename env root src dst rnflags) i0 []
+`Post A p Q`: along every sequence of answers that satisfy `A` (call by call), the result of `p` satisfies `Q`. -/
+
+/-- every answer `r` to a call `c` that satisfies `A c r` leads to a result satisfying `Q` -/
+def Post (A : Call → Resp → Prop) {α : Type} : Prog α → (α → Prop) → Prop
+  | .ret a, Q => Q a
+  | .call c k, Q => ∀ r, A c r → Post A (k r) Q
+
+namespace Post
+variable {A : Call → Resp → Prop}
+
+theorem mono {α : Type} {p : Prog α} {Q Q' : α → Prop} (hp : Post A p Q) (hq : ∀ a, Q a → Q' a) : Post A p Q' := by
+  induction p with
+  | ret a => exact hq a hp
+  | call c k ih => exact fun r hr => ih r (hp r hr)
+
+theorem any {α : Type} (p : Prog α) : Post A p (fun _ => True) := by
+  induction p with
+  | ret a => trivial
+  | call c k ih => exact fun r _ => ih r
+
+theorem bind {α β : Type} {p : Prog α} {f : α → Prog β} {Q' : α → Prop} {Q : β → Prop}
+    (hp : Post A p Q') (hf : ∀ a, Q' a → Post A (f a) Q) : Post A (Prog.bind p f) Q := by
+  induction p with
+  | ret a => exact hf a hp
+  | call c k ih => exact fun r hr => ih r (hp r hr)
+
+theorem mbind {α β : Type} {p : M α} {f : α → M β} {Q' : Except Err α → Prop} {Q : Except Err β → Prop}
+    (hp : Post A p Q') (hf : ∀ a, Q' (.ok a) → Post A (f a) Q) (he : ∀ e, Q' (.error e) → Q (.error e)) :
+    Post A (M.bind' p f) Q := by
+  unfold M.bind'
+  refine bind hp ?_
+  intro x hx
+  cases x with
+  | ok a => exact hf a hx
+  | error e => exact he e hx
+
+theorem mcall {β : Type} {c : Call} {f : Resp → M β} {Q : Except Err β → Prop}
+    (h : ∀ r, A c r → Post A (f r) Q) : Post A (M.bind' (M.call c) f) Q := h
+
+theorem lift {α : Type} {p : Prog α} {Q : Except Err α → Prop} (hp : Post A p (fun a => Q (.ok a))) :
+    Post A (M.lift p) Q := by
+  unfold M.lift
+  exact bind hp (fun a ha => ha)
+
+theorem onErr {α : Type} {p : M α} {c : Prog Unit} {Q : Except Err α → Prop} (hp : Post A p Q) :
+    Post A (M.onErr p c) Q := by
+  unfold M.onErr
+  refine bind hp ?_
+  intro x hx
+  cases x with
+  | ok a => exact hx
+  | error e => exact bind (any c) (fun _ _ => hx)
+
+theorem try' {α : Type} {p : M α} {Q : Except Err (Except Err α) → Prop}
+    (hp : Post A p (fun x => match x with
+      | .ok a => Q (.ok (.ok a))
+      | .error e => (e.isFatal = true → Q (.error e)) ∧ (e.isFatal = false → Q (.ok (.error e))))) :
+    Post A (M.try' p) Q := by
+  unfold M.try'
+  refine bind hp ?_
+  intro x hx
+  cases x with
+  | ok a => exact hx
+  | error e =>
+    by_cases hf : e.isFatal = true
+    · simp only [hf, ↓reduceIte]; exact hx.1 hf
+    · simp only [hf]; exact hx.2 (by simpa using hf)
+
+/-- the bridge to runs -/
+theorem of_runs {α : Type} {p : Prog α} {Q : α → Prop} (hp : Post A p Q) {h h' : Hist} {a : α} (hr : Runs p h h' a)
+    (hA : ∀ l, h' = h ++ l → ∀ x ∈ l, A x.1 x.2) : Q a := by
+  induction hr with
+  | ret a h => exact hp
+  | call c k r h h' a hk ih =>
+    obtain ⟨t, ht⟩ := Runs.isPrefix hk
+    have hr : A c r := hA ((c, r) :: t) (by rw [← ht]; simp) (c, r) List.mem_cons_self
+    refine ih (hp r hr) ?_
+    intro l hl x hx
+    exact hA ((c, r) :: l) (by rw [hl]; simp) x (List.mem_cons_of_mem _ hx)
+
+end Post
+
+/-! ## the answers of *some* world -/
+
+/-- `r` is the answer of some world (any tree, any moment) to `c` -/
+def Kern (c : Call) (r : Resp) : Prop := ∃ w : World, r = w.answer c
+
+theorem kern_of_ansSeq {ws : Nat → World} {i0 : Nat} {H : Hist} (hans : AnsSeq ws i0 H) {h h' : Hist} (hp : h' <+: H) :
+    ∀ l, h' = h ++ l → ∀ x ∈ l, Kern x.1 x.2 := by
+  intro l hl x hx
+  have hxH : x ∈ H := hp.subset (by rw [hl]; exact List.mem_append_right _ hx)
+  obtain ⟨k, hk, rfl⟩ := List.getElem_of_mem hxH
+  exact ⟨ws (i0 + k), hans k hk⟩
+
+theorem post_failWith {α : Type} (fds : List Fd) (e : Nat) (Q : Except Err α → Prop)
+    (h1 : Q (.error (.os e))) (h2 : ∀ s, Q (.error (.panic s))) : Post Kern (Sys.failWith (α := α) fds e) Q := by
+  unfold Sys.failWith
+  induction fds with
+  | nil => exact h1
+  | cons fd rest ih =>
+    unfold Sys.failWith.go
+    refine Post.bind (Post.any _) ?_
+    intro ok _
+    cases ok with
+    | true => exact ih
+    | false => exact h2 _
+
+theorem post_statx (d : Fd) (hd : 0 ≤ d) (n : Bytes) :
+    Post Kern (Sys.statx d n STATX_WANT) (fun x => ∃ id, x = .ok (STATX_WANT, id)) := by
+  unfold Sys.statx
+  simp only [M.bind_def, M.liftM_except, hotfix_tree hd, M.ofExcept_ok, M.bind_ok]
+  refine Post.mcall ?_
+  rintro r ⟨w, rfl⟩
+  simp only [World.answer]
+  by_cases hc : d = threadSelf ∨ d = procRoot ∨ d % 2 = 1 <;> simp only [hc, ↓reduceIte] <;> exact ⟨_, rfl⟩
+
+theorem post_fetchMntId (d : Fd) (hd : 0 ≤ d) (n : Bytes) :
+    Post Kern (Procfs.fetchMntId d n) (fun x => ∃ id, x = .ok (some id)) := by
+  unfold Procfs.fetchMntId
+  simp only [M.bind_def]
+  refine Post.mbind (Q' := fun x => ∃ id, x = .ok (.ok (STATX_WANT, id))) (Post.try' ?_) ?_ ?_
+  · refine (post_statx d hd n).mono ?_
+    rintro _ ⟨id, rfl⟩
+    exact ⟨id, rfl⟩
+  · rintro _ ⟨id, he⟩
+    cases he
+    have : hasAny STATX_WANT STATX_WANT = true := by decide
+    simp only [this, ↓reduceIte]
+    exact ⟨id, rfl⟩
+  · rintro _ ⟨_, he⟩; cases he
+
+/-- the outcomes of the procfs checks: passed, or `EXDEV` -/
+def OkOrXdev {α : Type} (a : α) (x : Except Err α) : Prop := x = .ok a ∨ x = .error (.os EXDEV)
+
+theorem post_verifySameMnt (m : Nat) (d : Fd) (hd : 0 ≤ d) (n : Bytes) :
+    Post Kern (Procfs.verifySameMnt (some m) d n) (OkOrXdev ()) := by
+  unfold Procfs.verifySameMnt
+  simp only [M.bind_def]
+  refine Post.mbind (post_fetchMntId d hd n) ?_ ?_
+  · rintro _ ⟨id, he⟩
+    cases he
+    split
+    · exact Or.inr rfl
+    · exact Or.inl rfl
+  · rintro _ ⟨_, he⟩; cases he
+
+theorem post_fstatfs (d : Fd) (hd : 0 ≤ d) : Post Kern (Sys.fstatfs d) (fun x => ∃ t, x = .ok t) := by
+  unfold Sys.fstatfs
+  simp only [M.bind_def, M.liftM_except, hotfix_tree hd, M.ofExcept_ok, M.bind_ok]
+  refine Post.mcall ?_
+  rintro r ⟨w, rfl⟩
+  simp only [World.answer]
+  by_cases hc : d = threadSelf ∨ d = procRoot ∨ d % 2 = 1 <;> simp only [hc, ↓reduceIte] <;> exact ⟨_, rfl⟩
+
+theorem post_verifyIsProcfs (d : Fd) (hd : 0 ≤ d) : Post Kern (Procfs.verifyIsProcfs d) (OkOrXdev ()) := by
+  unfold Procfs.verifyIsProcfs
+  simp only [M.bind_def]
+  refine Post.mbind (post_fstatfs d hd) ?_ ?_
+  · rintro _ ⟨t, he⟩
+    cases he
+    split
+    · exact Or.inr rfl
+    · exact Or.inl rfl
+  · rintro _ ⟨_, he⟩; cases he
+
+theorem post_verifyProc (m : Nat) (d : Fd) (hd : 0 ≤ d) :
+    Post Kern (Procfs.verifySameProcfsMnt (aenv m).proc d) (OkOrXdev ()) := by
+  unfold Procfs.verifySameProcfsMnt
+  simp only [M.bind_def]
+  refine Post.mbind (post_verifySameMnt m d hd []) ?_ ?_
+  · intro _ _; exact post_verifyIsProcfs d hd
+  · rintro e (he | he)
+    · cases he
+    · exact Or.inr he
+
+theorem post_intoPath : Post Kern (Procfs.intoPath .threadSelf procRoot) (fun x => x = .ok b!"thread-self") := by
+  unfold Procfs.intoPath
+  simp only [M.bind_def]
+  refine Post.mbind (Q' := fun x => ∃ t, x = .ok t) ?_ ?_ ?_
+  · show Post Kern (M.lift Sys.gettid) _
+    exact Post.lift ((Post.any _).mono (fun a _ => ⟨a, rfl⟩))
+  · intro tid _
+    unfold Sys.threadSelfCandidates
+    rw [Procfs.intoPath.probe]
+    simp only [M.bind_def]
+    refine Post.mbind (Q' := fun x => x = .ok true) ?_ ?_ ?_
+    · unfold M.isOk
+      simp only [M.bind_def]
+      refine Post.mbind (Q' := fun x => ∃ st, x = .ok (.ok st)) (Post.try' ?_) ?_ ?_
+      · unfold Sys.fstatat
+        have h0 : Sys.hotfix procRoot = .ok () := hotfix_tree (by decide)
+        simp only [M.bind_def, M.liftM_except, h0, M.ofExcept_ok, M.bind_ok]
+        refine Post.mcall ?_
+        rintro r ⟨w, rfl⟩
+        have ha : w.answer (.fstatat procRoot b!"thread-self" STAT_FLAGS) = .nums [S_IFLNK ||| 0o777, 0, 3, 5] := by
+          simp [World.answer, AT_FDCWD, procRoot]
+        rw [ha]
+        exact ⟨_, rfl⟩
+      · rintro _ ⟨st, he⟩; cases he; rfl
+      · rintro _ ⟨_, he⟩; cases he
+    · intro b hb; cases hb; rfl
+    · intro _ he; cases he
+  · rintro _ ⟨_, he⟩; cases he
+
+/-- an `openat2` that every world answers with the same descriptor -/
+theorem post_openat2 (d : Fd) (hd : 0 ≤ d) (p : Bytes) (hp : p.contains 0 = false) (fl rs : Nat) (L : Fd)
+    (hL : ∀ w : World, w.answer (.openat2 d p (fl ||| O_CLOEXEC) 0 rs OPEN_HOW_SIZE) = .fd L) :
+    Post Kern (Sys.openat2 d p fl rs) (fun x => x = .ok L) := by
+  unfold Sys.openat2
+  rw [if_neg (by rw [hp]; simp), toCString_id _ hp]
+  simp only [M.bind_def, M.liftM_except, hotfix_tree hd, M.ofExcept_ok, M.bind_ok]
+  refine Post.mcall ?_
+  rintro r ⟨w, rfl⟩
+  rw [hL w]
+  rfl
+
+theorem post_resolve (m : Nat) (d : Fd) (hd : 0 ≤ d) (p : Bytes) (hp : p.contains 0 = false) (fl : Nat) (L : Fd)
+    (hfl : (hasAny fl (O_CREAT ||| O_EXCL) || hasAll fl O_TMPFILE) = false)
+    (hL : ∀ (w : World) (fl rs : Nat), w.answer (.openat2 d p fl 0 rs OPEN_HOW_SIZE) = .fd L) :
+    Post Kern (Procfs.resolve (aenv m) (aenv m).proc.emulated d p fl 0) (fun x => x = .ok L) := by
+  unfold Procfs.resolve Procfs.openat2Resolve
+  have hemu : (aenv m).proc.emulated = false := rfl
+  have ho2 : (aenv m).openat2 = true := rfl
+  simp only [hfl, hemu, ho2, Bool.false_eq_true, ↓reduceIte, Bool.not_true]
+  exact post_openat2 d hd p hp _ _ L (fun w => hL w _ _)
+
+theorem answer_proc_ts (w : World) (fl rs : Nat) :
+    w.answer (.openat2 procRoot b!"thread-self" fl 0 rs OPEN_HOW_SIZE) = .fd threadSelf := by
+  simp only [World.answer, ↓reduceIte]
+
+theorem post_openBase (m : Nat) :
+    Post Kern (Procfs.openBase (aenv m) (aenv m).proc .threadSelf) (OkOrXdev threadSelf) := by
+  unfold Procfs.openBase
+  simp only [M.bind_def]
+  refine Post.mbind (post_intoPath) ?_ ?_
+  · intro path hpath
+    cases hpath
+    refine Post.mbind (post_resolve m procRoot (by decide) b!"thread-self" (by decide) _ threadSelf (by decide)
+      answer_proc_ts) ?_ ?_
+    · intro fd hfd
+      cases hfd
+      refine Post.mbind (Post.onErr (post_verifyProc m threadSelf (by decide))) ?_ ?_
+      · intro _ _; exact Or.inl rfl
+      · rintro e (he | he)
+        · cases he
+        · cases he; exact Or.inr rfl
+    · intro _ he; cases he
+  · intro _ he; cases he
+
+theorem post_lookupVerified (m : Nat) (sub : Bytes) (hsub : sub.contains 0 = false) (fl : Nat) (L : Fd) (hL0 : 0 ≤ L)
+    (hfl : (hasAny fl (O_CREAT ||| O_EXCL) || hasAll fl O_TMPFILE) = false)
+    (hL : ∀ (w : World) (fl rs : Nat), w.answer (.openat2 threadSelf sub fl 0 rs OPEN_HOW_SIZE) = .fd L) :
+    Post Kern (Procfs.lookupVerified (aenv m) (aenv m).proc threadSelf sub fl) (OkOrXdev L) := by
+  unfold Procfs.lookupVerified
+  simp only [M.bind_def]
+  refine Post.mbind (post_resolve m threadSelf (by decide) sub hsub fl L hfl hL) ?_ ?_
+  · intro fd hfd
+    cases hfd
+    refine Post.mbind (Post.onErr (post_verifyProc m L hL0)) ?_ ?_
+    · intro _ _; exact Or.inl rfl
+    · rintro e (he | he)
+      · cases he
+      · cases he; exact Or.inr rfl
+  · intro _ he; cases he
+
+/-- `ProcfsHandle::open(thread-self, sub)` when every world answers the lookup of `sub` with `L`: `L`, or `EXDEV` -/
+theorem post_openH (m : Nat) (sub : Bytes) (hsub : sub.contains 0 = false) (fl : Nat) (L : Fd) (hL0 : 0 ≤ L)
+    (hfl : (hasAny (fl ||| O_NOFOLLOW) (O_CREAT ||| O_EXCL) || hasAll (fl ||| O_NOFOLLOW) O_TMPFILE) = false)
+    (hL : ∀ (w : World) (fl rs : Nat), w.answer (.openat2 threadSelf sub fl 0 rs OPEN_HOW_SIZE) = .fd L) :
+    Post Kern (Procfs.openH (aenv m) Procfs.retryFuel (aenv m).proc .threadSelf sub fl) (OkOrXdev L) := by
+  have hfuel : Procfs.retryFuel = 63 + 1 := rfl
+  rw [hfuel, Procfs.openH]
+  unfold Procfs.openStep
+  simp only [M.bind_def]
+  refine Post.mbind (post_openBase m) ?_ ?_
+  · intro basedir hb
+    have hb' : basedir = threadSelf := by
+      rcases hb with hb | hb <;> cases hb; rfl
+    subst hb'
+    refine Post.mbind (Q' := fun x => x = .ok (.ok L) ∨ x = .ok (.error (.os EXDEV))) (Post.try' ?_) ?_ ?_
+    · refine (post_lookupVerified m sub hsub _ L hL0 hfl hL).mono ?_
+      rintro x (rfl | rfl)
+      · exact Or.inl rfl
+      · exact ⟨fun hf => absurd hf (by decide), fun _ => Or.inr rfl⟩
+    · rintro first (he | he)
+      · cases he
+        refine Post.mbind (Q' := fun x => x = .ok ()) ?_ ?_ ?_
+        · show Post Kern (M.lift (Sys.close threadSelf)) _
+          exact Post.lift ((Post.any _).mono (fun _ _ => rfl))
+        · intro _ _; exact Or.inl rfl
+        · intro _ he; cases he
+      · cases he
+        have hsub' : (aenv m).proc.isSubset = false := rfl
+        simp only [hsub', Bool.false_eq_true, false_and, ↓reduceIte]
+        refine Post.mbind (Q' := fun x => x = .ok ()) ?_ ?_ ?_
+        · show Post Kern (M.lift (Sys.close threadSelf)) _
+          exact Post.lift ((Post.any _).mono (fun _ _ => rfl))
+        · intro _ _; exact Or.inr rfl
+        · intro _ he; cases he
+    · rintro _ (he | he) <;> cases he
+  · rintro e (he | he)
+    · cases he
+    · cases he; exact Or.inr rfl
+
+theorem int_even_magic (f : Int) (h0 : 0 ≤ f) (h2 : f % 2 = 0) : 0 ≤ f + 1 ∧ (f + 1) % 2 = 1 := by omega
+
+theorem answer_ts_fd (f : Fd) (h0 : 0 ≤ f) (w : World) (fl rs : Nat) :
+    w.answer (.openat2 threadSelf (b!"fd/" ++ Path.decimal f.toNat) fl 0 rs OPEN_HOW_SIZE) = .fd (magic f) := by
+  have hnn : (f.toNat : Int) = f := Int.toNat_of_nonneg h0
+  have hne : threadSelf ≠ procRoot := by decide
+  have hpre : (b!"fd/").isPrefixOf (b!"fd/" ++ Path.decimal f.toNat) = true := by simp [List.isPrefixOf]
+  have hdrop : (b!"fd/" ++ Path.decimal f.toNat).drop 3 = Path.decimal f.toNat := by simp
+  simp only [World.answer, hne, hpre, hdrop, KPath.parse_decimal, hnn, ↓reduceIte]
+
+theorem answer_ts_fdDir (w : World) (fl rs : Nat) :
+    w.answer (.openat2 threadSelf b!"fd" fl 0 rs OPEN_HOW_SIZE) = .fd fdDir := by
+  have hne : threadSelf ≠ procRoot := by decide
+  have hpre : (b!"fd/").isPrefixOf b!"fd" = false := by decide
+  simp only [World.answer, hne, hpre, ↓reduceIte, Bool.false_eq_true]
+
+/-- what reading a link can say -/
+def ReadOut (x : Except Err Bytes) : Prop :=
+  (∃ b, x = .ok b) ∨ x = .error (.os EXDEV) ∨ x = .error (.os ENAMETOOLONG) ∨ ∃ s, x = .error (.panic s)
+
+theorem post_readlinkat_odd (d : Fd) (hd : 0 ≤ d) (hodd : d % 2 = 1) : Post Kern (Sys.readlinkat d []) ReadOut := by
+  unfold Sys.readlinkat
+  simp only [M.bind_def, M.liftM_except, hotfix_tree hd, M.ofExcept_ok, M.bind_ok]
+  refine Post.mcall ?_
+  rintro r ⟨w, rfl⟩
+  have ha : ∃ b, w.answer (.readlinkat d [] READLINK_BUF) = .bytes b := by
+    simp only [World.answer, ne_eq, not_true_eq_false, ↓reduceIte, hodd]
+    cases w.dpath (d - 1) <;> exact ⟨_, rfl⟩
+  obtain ⟨b, hb⟩ := ha
+  rw [hb]
+  dsimp only
+  split
+  · exact post_failWith _ _ _ (Or.inr (Or.inr (Or.inl rfl))) (fun s => Or.inr (Or.inr (Or.inr ⟨s, rfl⟩)))
+  · exact Or.inl ⟨b, rfl⟩
+
+/-- the probe of `open_follow` on `thread-self/fd/<f>` for an even `f`: it never says "not a symlink" -/
+theorem post_readlinkH (m : Nat) (f : Fd) (h0 : 0 ≤ f) (h2 : f % 2 = 0) :
+    Post Kern (Procfs.readlinkH (aenv m) (aenv m).proc .threadSelf (b!"fd/" ++ Path.decimal f.toNat)) ReadOut := by
+  unfold Procfs.readlinkH
+  simp only [M.bind_def]
+  have hm := int_even_magic f h0 h2
+  refine Post.mbind (post_openH m _ (fdpath_no_nul _) O_PATH (magic f) hm.1 (by decide) (answer_ts_fd f h0)) ?_ ?_
+  · intro link hl
+    have hl' : link = magic f := by rcases hl with hl | hl <;> cases hl; rfl
+    subst hl'
+    refine Post.mbind (Q' := fun x => (∃ y, x = .ok y ∧ ReadOut y) ∨ ∃ s, x = .error (.panic s)) (Post.try' ?_) ?_ ?_
+    · refine (post_readlinkat_odd (magic f) hm.1 hm.2).mono ?_
+      intro x hx
+      cases x with
+      | ok b => exact Or.inl ⟨_, rfl, hx⟩
+      | error e =>
+        refine ⟨fun hf => ?_, fun _ => Or.inl ⟨_, rfl, hx⟩⟩
+        rcases hx with ⟨_, he⟩ | he | he | ⟨s, he⟩ <;> cases he
+        · exact absurd hf (by decide)
+        · exact absurd hf (by decide)
+        · exact Or.inr ⟨s, rfl⟩
+    · rintro r (⟨y, he, hy⟩ | ⟨_, he⟩)
+      · cases he
+        refine Post.mbind (Q' := fun x => x = .ok ()) ?_ ?_ ?_
+        · show Post Kern (M.lift (Sys.close (magic f))) _
+          exact Post.lift ((Post.any _).mono (fun _ _ => rfl))
+        · intro _ _
+          cases r with
+          | ok b => exact hy
+          | error e => exact hy
+        · intro _ he; cases he
+      · cases he
+    · rintro _ (⟨_, he, _⟩ | ⟨s, he⟩)
+      · cases he
+      · cases he; exact Or.inr (Or.inr (Or.inr ⟨s, rfl⟩))
+  · rintro e (he | he)
+    · cases he
+    · cases he; exact Or.inr (Or.inl rfl)
+
+/-- the result, if any, is `f` -/
+def OnlyFd (f : Fd) (x : Except Err Fd) : Prop := ∀ fd, x = .ok fd → fd = f
+
+theorem post_openatFollow_fdDir (f : Fd) (h0 : 0 ≤ f) (fl : Nat) (hnf : hasAll (fl ||| O_CLOEXEC ||| O_NOCTTY) O_NOFOLLOW = false) :
+    Post Kern (Sys.openatFollow fdDir (Path.decimal f.toNat) fl 0) (OnlyFd f) := by
+  unfold Sys.openatFollow
+  have hd : Sys.hotfix fdDir = .ok () := hotfix_tree (by decide)
+  simp only [M.bind_def, M.liftM_except, hd, M.ofExcept_ok, M.bind_ok]
+  refine Post.mcall ?_
+  rintro r ⟨w, rfl⟩
+  have hnn : (f.toNat : Int) = f := Int.toNat_of_nonneg h0
+  simp only [World.answer, ↓reduceIte, hnf, Bool.false_eq_true, KPath.parse_decimal, hnn]
+  cases openKind (w.kind f) (fl ||| O_CLOEXEC ||| O_NOCTTY) with
+  | ok u =>
+    intro fd he
+    cases he
+    rfl
+  | error e =>
+    exact post_failWith _ _ _ (fun fd he => by cases he) (fun s fd he => by cases he)
+
+theorem post_close_then {β : Type} (d : Fd) (f : Unit → M β) (Q : Except Err β → Prop) (h : Post Kern (f ()) Q) :
+    Post Kern (M.bind' (liftM (Sys.close d) : M Unit) f) Q := by
+  refine Post.mbind (Q' := fun x => x = .ok ()) ?_ ?_ ?_
+  · show Post Kern (M.lift (Sys.close d)) _
+    exact Post.lift ((Post.any _).mono (fun _ _ => rfl))
+  · intro _ _; exact h
+  · intro _ he; cases he
+
+theorem post_openFollowTail (m : Nat) (f : Fd) (h0 : 0 ≤ f) (fl : Nat)
+    (hnf : hasAll (fl ||| O_CLOEXEC ||| O_NOCTTY) O_NOFOLLOW = false) :
+    Post Kern (Procfs.openFollowTail (aenv m) (aenv m).proc .threadSelf (b!"fd/" ++ Path.decimal f.toNat) fl) (OnlyFd f) := by
+  unfold Procfs.openFollowTail
+  simp only [M.bind_def, M.liftM_except, KOpen.pathSplit_fdpath, M.ofExcept_ok, M.bind_ok]
+  have verr : ∀ e : Err, OnlyFd f (.error e) := fun e fd he => by cases he
+  refine Post.mbind (post_openH m b!"fd" (by decide) (O_PATH ||| O_DIRECTORY) fdDir (by decide) (by decide) answer_ts_fdDir)
+    ?_ (fun e _ => verr e)
+  intro parent hp
+  have hp' : parent = fdDir := by rcases hp with hp | hp <;> cases hp; rfl
+  subst hp'
+  refine Post.mbind (Post.onErr (post_fetchMntId fdDir (by decide) [])) ?_ (fun e _ => verr e)
+  rintro pm ⟨id, he⟩
+  cases he
+  refine Post.mbind (Post.onErr (post_verifySameMnt id fdDir (by decide) _)) ?_ (fun e _ => verr e)
+  intro _ _
+  refine Post.mbind (Q' := fun x => ∀ y, x = .ok y → OnlyFd f y) (Post.try' ?_) ?_ (fun e _ => verr e)
+  · refine (post_openatFollow_fdDir f h0 fl hnf).mono ?_
+    intro x hx
+    cases x with
+    | ok a => intro y hy; cases hy; exact hx
+    | error e =>
+      refine ⟨fun _ y hy => ?_, fun _ y hy => ?_⟩
+      · cases hy
+      · cases hy; exact verr e
+  · intro r hr
+    refine post_close_then _ _ _ ?_
+    have := hr r rfl
+    cases r with
+    | ok a => exact this
+    | error e => exact this
+
+theorem post_openFollowH (m : Nat) (f : Fd) (h0 : 0 ≤ f) (h2 : f % 2 = 0) (fl : Nat)
+    (hnf : hasAll (fl ||| O_CLOEXEC ||| O_NOCTTY) O_NOFOLLOW = false) :
+    Post Kern (Procfs.openFollowH (aenv m) (aenv m).proc .threadSelf (b!"fd/" ++ Path.decimal f.toNat) fl) (OnlyFd f) := by
+  unfold Procfs.openFollowH
+  simp only [KOpen.strip_fdpath, Bool.false_eq_true, ↓reduceIte]
+  have verr : ∀ e : Err, OnlyFd f (.error e) := fun e fd he => by cases he
+  split
+  · exact verr _
+  · simp only [M.bind_def]
+    refine Post.mbind (Q' := fun x => (∃ y, x = .ok y ∧ ReadOut y) ∨ ∃ s, x = .error (.panic s)) (Post.try' ?_) ?_ ?_
+    · refine (post_readlinkH m f h0 h2).mono ?_
+      intro x hx
+      cases x with
+      | ok b => exact Or.inl ⟨_, rfl, hx⟩
+      | error e =>
+        refine ⟨fun hf => ?_, fun _ => Or.inl ⟨_, rfl, hx⟩⟩
+        rcases hx with ⟨_, he⟩ | he | he | ⟨s, he⟩ <;> cases he
+        · exact absurd hf (by decide)
+        · exact absurd hf (by decide)
+        · exact Or.inr ⟨s, rfl⟩
+    · rintro r (⟨y, he, hy⟩ | ⟨_, he⟩)
+      · cases he
+        rcases hy with ⟨b, rfl⟩ | rfl | rfl | ⟨s, rfl⟩
+        · exact post_openFollowTail m f h0 fl hnf
+        · dsimp only
+          rw [if_neg (by decide), if_neg (by decide)]
+          exact verr _
+        · dsimp only
+          rw [if_neg (by decide), if_pos rfl]
+          exact post_openFollowTail m f h0 fl hnf
+        · dsimp only
+          rw [if_neg (by simp), if_neg (by simp)]
+          exact verr _
+      · cases he
+    · intro e _; exact verr e
+
+/-- **`reopen` of an even descriptor, whatever the worlds of its moments look like**: the result, if any, is the
+descriptor's object again -/
+theorem post_reopen (m : Nat) (f : Fd) (h0 : 0 ≤ f) (h2 : f % 2 = 0) (flags : Nat) :
+    Post Kern (Procfs.reopen (aenv m) f flags) (OnlyFd f) := by
+  unfold Procfs.reopen
+  have verr : ∀ e : Err, OnlyFd f (.error e) := fun e fd he => by cases he
+  split
+  · exact verr _
+  · simp only [M.bind_def]
+    refine Post.mbind (Q' := fun _ => True) (Post.any _) ?_ (fun e _ => verr e)
+    intro st _
+    split
+    · exact verr _
+    · simp only [M.liftM_except, KProcReopen.procSubpath_nonneg f h0, M.ofExcept_ok, M.bind_ok]
+      exact post_openFollowH m f h0 h2 _ (KOpen.reFlags_nofollow flags)
+
+/-- **open_subpath (emulated one-shot open) under attack**: the descriptor returned refers to an object that was below
+the root at some moment of the call (descriptors are identified with objects in `World`: the re-open through
+`thread-self/fd/<n>` yields object `n` again) -/
+theorem openSubpath_under_attack (ws : Nat → World) (root : Fd) (rc : List Bytes) (m : Nat) (ha : Attacker ws root rc m)
+    (path : Bytes) (rflags flags : Nat) (i0 : Nat) (fd : Fd)
+    (h : (runSeq ws i0 (Root.openSubpath (aenv m) (eroot root rflags) path flags)).1 = .ok fd) :
+    ∃ i p, i0 ≤ i ∧ i < (runSeq ws i0 (Root.openSubpath (aenv m) (eroot root rflags) path flags)).2 ∧
+      (ws i).dpath fd = some p := by
+  obtain ⟨H, hruns, hlen, hans⟩ := runSeq_runs ws (Root.openSubpath (aenv m) (eroot root rflags) path flags) i0 []
   rw [h] at hruns
-  obtain ⟨_, _, _, _, _, _, _, _, _, _, _, _, _, _, _, hc, hH⟩ := C14_rename_shape _ _ _ _ _ hruns
-  exact no_ack_mutating hans hc hH
+  rw [hlen]
+  simp only [List.nil_append] at hruns
+  unfold Root.openSubpath Resolver.openOnce at hruns
+  split at hruns
+  · obtain ⟨_, he⟩ := ret_inv hruns; cases he
+  · simp only [eroot, Bool.not_true, Bool.false_eq_true, ↓reduceIte, M.bind_def, Resolver.resolve] at hruns
+    obtain ⟨hm, handle, hres, hr2⟩ := mbind_ok hruns
+    have hpm : hm <+: H := Runs.isPrefix hr2
+    obtain ⟨⟨hnn, hev⟩, i, p, hi0, hi1, hp⟩ :=
+      emulated_resolve_sub' ws root rc m ha path rflags _ i0 (hans.of_prefix hpm) hres
+    have hlen' := hpm.length_le
+    obtain ⟨hm2, st, hst, hr3⟩ := mbind_ok hr2
+    split at hr3
+    · -- the handle is a symlink: it is returned as it is (`O_PATH`), or the call fails
+      split at hr3
+      · obtain ⟨_, _, _, hr4⟩ := mbind_ok hr3
+        obtain ⟨_, he⟩ := ret_inv hr4; cases he
+      · split at hr3
+        · obtain ⟨_, he⟩ := ret_inv hr3
+          cases he
+          exact ⟨i, p, hi0, by omega, hp⟩
+        · obtain ⟨_, _, _, hr4⟩ := mbind_ok hr3
+          obtain ⟨_, he⟩ := ret_inv hr4; cases he
+    · -- the re-open through `thread-self/fd/<handle>`
+      obtain ⟨hm3, res, htry, hr4⟩ := mbind_ok hr3
+      obtain ⟨y, hy, hcase⟩ := try_inv htry
+      have hp3 : hm3 <+: H := Runs.isPrefix hr4
+      obtain ⟨hm4, _, hcl, hr5⟩ := mbind_ok hr4
+      obtain ⟨_, hx⟩ := ofExcept_inv hr5
+      subst hx
+      rcases hcase with ⟨a, rfl, hxa⟩ | ⟨e, rfl, hfe⟩
+      · cases hxa
+        have hfd := (post_reopen m handle hnn hev flags).of_runs hy (kern_of_ansSeq hans hp3) fd rfl
+        subst hfd
+        exact ⟨i, p, hi0, by omega, hp⟩
+      · rcases hfe with ⟨_, hxe⟩ | ⟨_, hxe⟩ <;> cases hxe
+
+/-! ## Non-vacuity -/
 
 /-- non-vacuity of `resolve_sub_under_attack`: the run `ex_run` of `Attack.lean` as a `Runs` (`runSeq_runs`), taken as
 the sub-run that is the whole history -/
@@ -205,5 +738,99 @@ example : ∃ parent name dir pre rcl H,
     ∃ i p, 0 ≤ i ∧ i < 0 + pre.length ∧ exWorld.dpath dir = some p :=
   createFile_under_attack (fun _ => exWorld) exWorld.root exWorld.rootComps exWorld.procMnt
     (attacker_const exWorld exWorld_wf (by decide)) b!"a" 0 0 0 0 6 ex_createFile
+
+/-- a world sequence on which a mutating call is acknowledged: `exWorld` at every moment, whose kernel answers every
+mutating call with success -/
+def ackWorld : World := { exWorld with mutAns := fun _ => .unit }
+
+/-- `WF` does not mention `mutAns` -/
+theorem ackWorld_wf : ackWorld.WF := { exWorld_wf with }
+
+/-- the parent `.` of the path `a` is the root, object 4, also on `ackWorld` -/
+theorem ack_parent : Prog.run ackWorld (Opath.resolve (aenv ackWorld.procMnt) ackWorld.root b!"." 0 false) = .ok 4 := by
+  show Prog.run ackWorld (Opath.resolve (KRun.kenv ackWorld) ackWorld.root b!"." 0 false) = .ok 4
+  rw [KSpec.run_opath_resolve ackWorld_wf]
+  unfold World.resolveInRoot
+  rw [if_neg (by decide)]
+  have hc : Path.rawComponents b!"." = [b!"."] := by decide
+  rw [hc]
+  show KSim.toOut (ackWorld.kresolve _ 4 [Path.dot] 0) = _
+  rw [KSim.k_dot _ _ _ _ _ (by rfl) (Or.inr rfl), KSim.k_nil]
+  rfl
+
+theorem ack_unlink : Prog.run ackWorld (Sys.unlinkat 4 b!"a" 0) = .ok () := by rfl
+theorem ack_mkdir : Prog.run ackWorld (Sys.mkdirat 4 b!"a" (Root.clearFmt 0o755)) = .ok () := by rfl
+theorem ack_rename : Prog.run ackWorld (Sys.renameat2 4 b!"a" 4 b!"b" 0) = .ok () := by rfl
+
+/-- non-vacuity of `remove_under_attack`: an operation with a mutating call succeeds under `runSeq` -/
+theorem ex_remove : (runSeq (fun _ => ackWorld) 0 (Root.removeInode (aenv ackWorld.procMnt) (eroot ackWorld.root 0) b!"a" false)).1 = .ok () := by
+  refine (runSeq_const ackWorld _ 0).trans ?_
+  have hs : Path.pathSplit b!"a" = .ok (b!".", some b!"a") := by rfl
+  unfold Root.removeInode Root.resolveParent
+  simp only [hs, Resolver.resolve, eroot, ↓reduceIte, M.bind_def, run_bind'_simp, run_do_liftE, ack_parent, run_do_pure,
+    run_try_simp, ack_unlink, run_do_liftP, run_ofExcept_simp, Bool.false_eq_true]
+
+example := remove_under_attack (fun _ => ackWorld) ackWorld.root ackWorld.rootComps ackWorld.procMnt
+  (attacker_const ackWorld ackWorld_wf (by decide)) b!"a" 0 false 0 ex_remove
+
+/-- non-vacuity of `create_under_attack`: `mkdir a` -/
+theorem ex_create : (runSeq (fun _ => ackWorld) 0 (Root.create (aenv ackWorld.procMnt) (eroot ackWorld.root 0) b!"a" (.directory 0o755))).1 = .ok () := by
+  refine (runSeq_const ackWorld _ 0).trans ?_
+  have hs : Path.pathSplit b!"a" = .ok (b!".", some b!"a") := by rfl
+  unfold Root.create Root.resolveParent
+  simp only [hs, Resolver.resolve, eroot, ↓reduceIte, M.bind_def, run_bind'_simp, run_do_liftE, ack_parent, run_do_pure,
+    run_try_simp, Root.createCall, ack_mkdir, run_do_liftP, run_ofExcept_simp]
+
+example := create_under_attack (fun _ => ackWorld) ackWorld.root ackWorld.rootComps ackWorld.procMnt
+  (attacker_const ackWorld ackWorld_wf (by decide)) b!"a" 0 (.directory 0o755) (fun _ h => by cases h) 0 ex_create
+
+/-- non-vacuity of `rename_under_attack`: `rename a b` -/
+theorem ex_rename : (runSeq (fun _ => ackWorld) 0 (Root.rename (aenv ackWorld.procMnt) (eroot ackWorld.root 0) b!"a" b!"b" 0)).1 = .ok () := by
+  refine (runSeq_const ackWorld _ 0).trans ?_
+  have hs : Path.pathSplit b!"a" = .ok (b!".", some b!"a") := by rfl
+  have hs2 : Path.pathSplit b!"b" = .ok (b!".", some b!"b") := by rfl
+  unfold Root.rename Root.resolveParent
+  simp only [hs, hs2, Resolver.resolve, eroot, ↓reduceIte, M.bind_def, run_bind'_simp, run_do_liftE, ack_parent, run_do_pure,
+    run_try_simp, ack_rename, run_do_liftP, run_ofExcept_simp, run_onErr_simp]
+
+example := rename_under_attack (fun _ => ackWorld) ackWorld.root ackWorld.rootComps ackWorld.procMnt
+  (attacker_const ackWorld ackWorld_wf (by decide)) b!"a" b!"b" 0 0 0 ex_rename
+
+/-- non-vacuity of `readlink_under_attack`: object 6 of the example world is the symlink `a -> a` -/
+theorem ex_readlink :
+    (runSeq (fun _ => exWorld) 0 (Root.readlink (aenv exWorld.procMnt) (eroot exWorld.root 0) b!"a")).1 = .ok b!"a" := by
+  refine (runSeq_const exWorld _ 0).trans ?_
+  have hres : Prog.run exWorld (Opath.resolve (aenv exWorld.procMnt) exWorld.root b!"a" 0 true) = .ok 6 :=
+    (runSeq_const exWorld _ 0).symm.trans ex_run
+  have hrl : Prog.run exWorld (Sys.readlinkat 6 []) = .ok b!"a" :=
+    run_readlinkat_lnk exWorld_wf 6 (by unfold isTree; decide) rfl
+  unfold Root.readlink Root.resolve
+  simp only [Resolver.resolve, eroot, ↓reduceIte, M.bind_def, run_bind'_simp, hres, run_try_simp, hrl, run_do_liftP,
+    run_ofExcept_simp]
+
+/-- non-vacuity of `openSubpath_under_attack`: `open_subpath(".", O_PATH|O_DIRECTORY)` goes through the re-open and returns
+the root again -/
+theorem ex_openSubpath :
+    (runSeq (fun _ => exWorld) 0
+      (Root.openSubpath (aenv exWorld.procMnt) (eroot exWorld.root 0) b!"." (O_PATH ||| O_DIRECTORY))).1 = .ok 4 := by
+  refine (runSeq_const exWorld _ 0).trans ?_
+  show Prog.run exWorld (Resolver.openOnce (kenv exWorld) { emulated := true, rflags := 0 } exWorld.root b!"." _) = _
+  rw [KOpen.run_openOnce_emulated exWorld_wf _ _ _ (by decide)]
+  have hr : resolveInRoot exWorld (KSpec.ecfg 0 (hasAll (O_PATH ||| O_DIRECTORY) O_NOFOLLOW)) b!"." = .ok 4 := by
+    unfold World.resolveInRoot
+    rw [if_neg (by decide)]
+    have hc : Path.rawComponents b!"." = [b!"."] := by decide
+    rw [hc]
+    show exWorld.kresolve _ 4 [Path.dot] 0 = _
+    rw [KSim.k_dot _ _ _ _ _ (by rfl) (Or.inr rfl), KSim.k_nil]
+  unfold KOpen.openSpec
+  rw [hr]
+  rfl
+
+example := readlink_under_attack (fun _ => exWorld) exWorld.root exWorld.rootComps exWorld.procMnt
+  (attacker_const exWorld exWorld_wf (by decide)) b!"a" 0 0 b!"a" ex_readlink
+
+example := openSubpath_under_attack (fun _ => exWorld) exWorld.root exWorld.rootComps exWorld.procMnt
+  (attacker_const exWorld exWorld_wf (by decide)) b!"." 0 (O_PATH ||| O_DIRECTORY) 0 4 ex_openSubpath
 
 end AttackOps
